@@ -35,10 +35,24 @@ GHOST_SEQS = (('B', 'B'), ('C', 'C'), ('C', 'B'), ('E', 'D'), ('D', 'E'), ('D', 
               ('A', 'A'), ('A', 'W'), ('W', 'F'), ('F', 'A'))
 
 
-def top_text(name, residues):
+TOPNUMS = ('seq', 'same', 'rev')
+
+
+def top_text(name, residues, tnum='seq'):
+    """Topology text.  tnum = residue numbering INSIDE the topology (irrelevant for recognition: adjacent
+    residues always differ in number or name): seq 1,2,3..; same: the number only advances when the residue
+    name repeats (differently named residues share a number); rev: decreasing numbers."""
     atoms = []
+    num, prev = 1, None
     for ri, (rn, names) in enumerate(residues):
-        atoms += [(an, rn, ri + 1) for an in names]
+        if tnum == 'seq':
+            num = ri + 1
+        elif tnum == 'rev':
+            num = len(residues) - ri
+        else:
+            num = num + 1 if rn == prev else num
+        prev = rn
+        atoms += [(an, rn, num) for an in names]
     bonds = [(i, i + 1) for i in range(len(atoms) - 1)]
     return itp_text(name, atoms, bonds)
 
@@ -146,7 +160,9 @@ class C11(Check):
                        'modes': ['ctor', 'add'], 'slice_values': '{None,-2,-1,0,1,2,n}^3, step != 0',
                        'slice_cube_all_orders_up_to_len': {'seq': sl, 'alt/wrap/same': sl2},
                        'slice_cube_one_order_beyond': 'full cube up to length 5; at length 6 step in {None,-1,2}',
-                       'oracle_after_each_add_ftop': 'iteration, len, composition; final state: + every index, slices',
+                       'oracle_after_each_add_ftop': 'iteration, len, composition, every index, reduced slice cube; final state: full slice cube',
+                       'topology_residue_numbering': 'seq / same number on differently named residues / decreasing, for files '
+                                                     'with a multi-residue species up to the all-orders slice length (numbering seq)',
                        'numbering_alt_wrap_same_up_to_len': nl,
                        'refused_topologies': 'numbering seq only; absent species, absent kind sequence, '
                                              'different atom names; before and after loading the real species '
@@ -174,6 +190,9 @@ class C11(Check):
             return
         perms = [case['perm']] if 'perm' in case else [list(p) for p in itertools.permutations(present)]
         modes = [case['mode']] if 'mode' in case else ['ctor', 'add']
+        multi = any(len(SPECIES[s]) > 1 for s in present)
+        tnums = [case['tnum']] if 'tnum' in case else \
+            (TOPNUMS if num == 'seq' and multi and len(seq) <= case.get('sl', 4) else ('seq',))
         for pi, perm in enumerate(perms):
             for mode in modes:
                 if len(seq) <= case.get('sl', 4) or 'perm' in case:
@@ -182,7 +201,9 @@ class C11(Check):
                     level = 3 if len(seq) <= 5 else 2
                 else:
                     level = 1
-                self._load(dict(case, perm=perm, mode=mode), R, text, inst, perm, mode, level)
+                for tnum in tnums:
+                    self._load(dict(case, perm=perm, mode=mode, tnum=tnum), R, text, inst, perm, mode,
+                               level if tnum == 'seq' else min(level, 1))
         if 'perm' not in case and num == 'seq':
             for g in self._ghosts(seq, stream, present):
                 self._ghost(dict(case, ghost=g), R, text, inst, stream, present)
@@ -194,7 +215,7 @@ class C11(Check):
         from gaddlemaps.components import System
         self._oor_other = 0
         seq = cdesc['seq']
-        tops = [MemFile(top_text(s, SPECIES[s]), s + '.itp') for s in perm]
+        tops = [MemFile(top_text(s, SPECIES[s], cdesc.get('tnum', 'seq')), s + '.itp') for s in perm]
         sig = det = None
         syst = None
         try:
@@ -203,13 +224,14 @@ class C11(Check):
                 sig, det = self._oracle(syst, inst, set(perm), level)
             else:
                 syst = System(MemFile(text, 'c11.gro'))
-                sig, det = self._oracle(syst, inst, set(), 1 if not tops else 0)
+                sig, det = self._oracle(syst, inst, set(), 1)
                 for k, t in enumerate(tops):
                     if sig:
                         break
                     syst.add_ftop(t)
                     last = k == len(tops) - 1
-                    sig, det = self._oracle(syst, inst, set(perm[:k + 1]), level if last else 0)
+                    # indexing is exercised after EVERY add (a later add must be visible through every access path)
+                    sig, det = self._oracle(syst, inst, set(perm[:k + 1]), level if last else min(level, 2))
                     if sig:
                         det = f'after loading {perm[:k + 1]}: {det}'
         except Exception as exc:     # a present species must load
@@ -217,7 +239,7 @@ class C11(Check):
         want = [g for g in inst if g['sp'] in perm]
         R.case(cdesc, nontrivial=bool(want) and sum(len(SPECIES[s]) for s in seq) >= 2,
                outcome=f'{len(want)} molecules/{len(perm)} species',
-               cls=f"len{len(seq)}/sp{len(perm)}/{mode}/{cdesc['num']}")
+               cls=f"len{len(seq)}/sp{len(perm)}/{mode}/{cdesc['num']}" + ('' if cdesc.get('tnum', 'seq') == 'seq' else '/top-' + cdesc['tnum']))
         if self._oor_other:
             R.add('out_of_range_refused_with_other_than_IndexError', self._oor_other)
         if sig:
